@@ -28,6 +28,15 @@ for _w in conf.HOSTILE + ["errno", "len", "strlen", "memset", "exit", "abort", "
                           "wchar", "int8", "uint8", "float2", "asm", "inline2", "bool", "true", "false", "nullptr",
                           "offsetof", "alignof", "noreturn", "generic", "atomic", "thread", "signal", "setjmp"]:
     HOSTILE_BY_LEN.setdefault(len(_w), []).append(_w)
+# substrings of every name the tool treats specially: a careless `in` / startswith test on them shows up here
+for _special in ("environ", "defined", "attribute", "main", "size_t", "include", "define", "ifndef", "endif", "pragma",
+                 "struct", "union", "enum", "typedef", "static", "const", "sizeof", "return", "while", "else", "void"):
+    for _a in range(len(_special)):
+        for _b in range(_a + 1, len(_special) + 1):
+            _w = _special[_a:_b]
+            if _w.isalpha() and _w not in conf.KEYWORDS and _w not in conf.SPECIAL and _w not in HOSTILE_BY_LEN.get(len(_w), []):
+                HOSTILE_BY_LEN.setdefault(len(_w), []).append(_w)
+PREFIX_LETTERS = "gsteuf"
 
 
 def plan(tier, seed):
@@ -64,6 +73,8 @@ def fresh(r, old, taken):
                     out.append(r.choice(string.digits))
                 else:
                     out.append(ch)
+            if not pre and out and out[0].islower() and r.random() < 0.3:
+                out[0] = r.choice(PREFIX_LETTERS)       # first letter of a naming-class prefix, without the underscore
             cand = pre + "".join(out)
         if cand == old or cand in taken or cand in conf.KEYWORDS or cand in conf.SPECIAL:
             continue
@@ -98,7 +109,7 @@ def rename(p, r):
 def run_shard(spec):
     sh = Shard(max_per_sig=3)
     r = random.Random("c18/%s/%d" % (spec["seed"], spec["shard"]))
-    for p, tag in relwork.corpus(spec, nvar=4):
+    for p, tag in relwork.corpus(spec, nvar=3, force=("V40", "V41", "V42", "V38", "V39", "V43")):
         q, changed, names = rename(p, r)
         if not changed:
             continue
